@@ -112,7 +112,7 @@ def gen_packet(rng, tier="quick"):
     r = rng.random()
     pid = rng.choice(U.DATA_PIDS)
     n = rng.choice(LENGTHS) if rng.random() < 0.7 else rng.randint(0, 70)
-    if tier == "thorough" and rng.random() < 0.02:
+    if rng.random() < (0.02 if tier == "thorough" else 0.008):     # both tiers: byte-counter / maximum-size boundaries
         n = rng.choice([511, 512, 513, 1023, 1024])                  # high-speed bulk / isochronous sizes
     payload = gen_payload(rng, n)
     good = bytearray(U.data(pid, payload))
